@@ -444,7 +444,7 @@ def case_st(quick):
 def shard(ctx):
     if ctx.shard == 0:
         golden(ctx)
-    run_hypothesis(ctx, case_st(ctx.quick()), lambda c: run_case(ctx, c), ctx.n(400, 8000), shrink=False)
+    run_hypothesis(ctx, case_st(ctx.quick()), lambda c: run_case(ctx, c), ctx.n(1200, 8000), shrink=False)
 
 def replay(ctx, case):
     if "golden" in case:
